@@ -76,10 +76,10 @@ package seat_manager
 //@   ensures len(res) == sm.max
 //@   ensures forall k :: 0 <= k && k < sm.max ==> res[k] == sm.seats[ROT(startID, k, sm.max)]
 //@   ensures forall j :: 0 <= j && j < sm.max ==> res[DIST(startID, j, sm.max)] == sm.seats[j]
-//@   loop 1 invariant 0 <= i && i <= sm.max && len(seats) == i && 0 <= cur && (cur < sm.max || sm.max == 0)
-//@   loop 1 invariant (i < sm.max ==> DIST(startID, cur, sm.max) == i) && (i == sm.max ==> cur == startID)
-//@   loop 1 invariant forall k :: 0 <= k && k < i ==> seats[k] == sm.seats[ROT(startID, k, sm.max)]
-//@   loop 1 invariant forall j :: 0 <= j && j < sm.max && DIST(startID, j, sm.max) < i ==> seats[DIST(startID, j, sm.max)] == sm.seats[j]
+//@   loop 1 invariant 0 <= loopvar && loopvar <= sm.max && len(seats) == loopvar && 0 <= cur && (cur < sm.max || sm.max == 0)
+//@   loop 1 invariant (loopvar < sm.max ==> DIST(startID, cur, sm.max) == loopvar) && (loopvar == sm.max ==> cur == startID)
+//@   loop 1 invariant forall k :: 0 <= k && k < loopvar ==> seats[k] == sm.seats[ROT(startID, k, sm.max)]
+//@   loop 1 invariant forall j :: 0 <= j && j < sm.max && DIST(startID, j, sm.max) < loopvar ==> seats[DIST(startID, j, sm.max)] == sm.seats[j]
 
 //@ func (*SeatManager).findActivePlayer(sm, seats) (res, idx)
 //@   locked
@@ -97,7 +97,7 @@ package seat_manager
 //@   requires WFSM(sm)
 //@   modifies nothing
 //@   ensures res == CNT(sm, sm.max)
-//@   loop 1 invariant 0 <= i && i <= sm.max && count == CNT(sm, i)
+//@   loop 1 invariant 0 <= loopvar && loopvar <= sm.max && count == CNT(sm, loopvar)
 
 //@ func (*SeatManager).getNonEmptySeatCount(sm) (res)
 //@   locked
@@ -105,7 +105,7 @@ package seat_manager
 //@   requires WFSM(sm)
 //@   modifies nothing
 //@   ensures res == CNE(sm, sm.max)
-//@   loop 1 invariant 0 <= i && i <= sm.max && count == CNE(sm, i)
+//@   loop 1 invariant 0 <= loopvar && loopvar <= sm.max && count == CNE(sm, loopvar)
 
 //@ func (*SeatManager).getPlayableSeat(sm) (res)
 //@   locked
@@ -114,7 +114,7 @@ package seat_manager
 //@   modifies nothing
 //@   ensures res != nil ==> PLAYABLE(res) && 0 <= res.ID && res.ID < sm.max && sm.seats[res.ID] == res
 //@   ensures res == nil ==> (forall k :: 0 <= k && k < sm.max ==> !PLAYABLE(sm.seats[k]))
-//@   loop 1 invariant 0 <= i && i <= sm.max && (forall k :: 0 <= k && k < i ==> !PLAYABLE(sm.seats[k]))
+//@   loop 1 invariant 0 <= loopvar && loopvar <= sm.max && (forall k :: 0 <= k && k < loopvar ==> !PLAYABLE(sm.seats[k]))
 
 // ---------------------------------------------------------------------------
 // moving the button (C17) and assigning the blinds (C08)
@@ -329,9 +329,9 @@ package seat_manager
 
 //@ func (*SeatManager).Reset(sm)
 //@   inline
-//@   loop 1 invariant 0 <= i && i <= sm.max && sm.seats != nil
-//@   loop 1 invariant forall k :: 0 <= k && k < i ==> in(k, sm.seats) && sm.seats[k] != nil && sm.seats[k].ID == k && fresh(sm.seats[k])
+//@   loop 1 invariant 0 <= loopvar && loopvar <= sm.max && sm.seats != nil
+//@   loop 1 invariant forall k :: 0 <= k && k < loopvar ==> in(k, sm.seats) && sm.seats[k] != nil && sm.seats[k].ID == k && fresh(sm.seats[k])
 //@             && sm.seats[k].Player == nil && sm.seats[k].IsActive && !sm.seats[k].IsReserved
-//@   loop 1 invariant forall k, l :: 0 <= k && k < l && l < i ==> sm.seats[k] != sm.seats[l]
-//@   loop 1 invariant forall k :: in(k, sm.seats) ==> 0 <= k && k < i
+//@   loop 1 invariant forall k, l :: 0 <= k && k < l && l < loopvar ==> sm.seats[k] != sm.seats[l]
+//@   loop 1 invariant forall k :: in(k, sm.seats) ==> 0 <= k && k < loopvar
 //@   loop 1 invariant sm.dealer == nil && sm.sb == nil && sm.bb == nil
